@@ -79,6 +79,16 @@ void Precedence::bvisit(const Integer &x)
     }
 }
 
+void Precedence::bvisit(const Infty &x)
+{
+    // -oo is printed with a sign: (-oo)**x must not become -oo**x
+    if (x.is_negative_infinity()) {
+        precedence = PrecedenceEnum::Mul;
+    } else {
+        precedence = PrecedenceEnum::Atom;
+    }
+}
+
 void Precedence::bvisit(const RealDouble &x)
 {
     if (x.is_negative()) {
